@@ -15,6 +15,7 @@ import (
 
 	"seehuhn.de/go/postscript"
 	"seehuhn.de/go/postscript/afm"
+	"seehuhn.de/go/postscript/pfb"
 	"seehuhn.de/go/postscript/psenc"
 	"seehuhn.de/go/postscript/type1"
 	"seehuhn.de/go/postscript/type1/names"
@@ -38,7 +39,7 @@ var nameSamples = []string{"A", "space", "fi", "f_i", "uni0041", "uni00410042", 
 // genConcOp draws one operation.  Everything it touches is created inside the
 // closure or captured immutably, so tasks share nothing through the harness.
 func genConcOp(t *sim.Tape) concOp {
-	switch t.Weighted(4, 3, 2, 2, 2, 3, 2, 1, 1, 1, 1, 1) {
+	switch t.Weighted(4, 3, 2, 2, 2, 3, 2, 1, 1, 1, 1, 1, 1) {
 	case 9: // fonts only a foreign producer writes: composites, many glyphs, other lenIV
 		return foreignFontOp(t)
 	case 10: // dictionary comparisons and the other operators with hidden helpers
@@ -52,6 +53,23 @@ func genConcOp(t *sim.Tape) concOp {
 			}
 			err := in.Execute(strings.NewReader(src))
 			return dump.Err(err) + " " + dump.InterpNoDSC(in)
+		}}
+	case 12: // the PFB decoder
+		p, _ := gen.GenPFB(t, 5, 300, gen.PFBShortBinary, gen.PFBBadHeader)
+		data := p.Bytes()
+		k := 1 + t.Choose(64)
+		return concOp{"pfb.Decode", func() string {
+			r := pfb.Decode(bytes.NewReader(data))
+			var out []byte
+			buf := make([]byte, k)
+			for i := 0; i < 1_000_000; i++ {
+				n, err := r.Read(buf)
+				out = append(out, buf[:n]...)
+				if err != nil {
+					return fmt.Sprintf("%x %v", out, err)
+				}
+			}
+			return "no end"
 		}}
 	case 11: // CMap files misusing the CIDInit operators (error paths)
 		file := gen.GenCMapMisuse(t)
@@ -221,6 +239,7 @@ currentdict length currentfile pop userdict length systemdict length errordict l
 1 1 3 { } for 2 { 5 } repeat (ab) { } forall << /z 1 >> { pop pop } forall
 1 2 exch pop 3 index pop mark [ 1 ] ] length
 true { 1 } if false { 1 } { 2 } ifelse
+16#FF 8#17 2#101 1e3 .5 -3 <0A1b> <~87cUR~> (a\(b\)\\c\n\101)
 errordict /typecheck known 1 (a) add
 `)
 	sb.WriteString(dump.Err(err) + " " + dump.InterpNoDSC(in))
